@@ -268,6 +268,27 @@ def include_chains(rng, quick):
                                     files2.append((nm, content))
                             tr2 = ";".join("%s:%d" % (names[i], inc_line[i] + (1 if i == m else 0)) for i in range(m - 1, -1, -1))
                             out.append((files2, ("trace2", names[m], wl, tr2)))
+                    # a parenthesis left open at the END of file f_j (after its own INCLUDE, if it has one): the diagnostic is
+                    # raised when that file's scanner is drained; it is a fault of f_j at its end, reached through the chain
+                    if after and variant == 0:
+                        files3 = []
+                        for (nm, content) in files:
+                            if nm == names[j]:
+                                ls = [l for l in content.decode().split("\n") if l not in ("TYPE @dup", "  {}") or nm == "main.jst"]
+                                if nm == "main.jst":
+                                    # main keeps its first @dup; drop only the second declaration
+                                    ls = content.decode().split("\n")
+                                    k2 = fl - 1
+                                    del ls[k2:k2 + 2]
+                                while ls and ls[-1] == "":
+                                    ls.pop()
+                                ls += ["URL /open%d" % j, "(", "  GET", "    200 any"]
+                                c3 = ("\n".join(ls) + "\n").encode()
+                                files3.append((nm, c3))
+                                wl3 = len(ls) + 1
+                            else:
+                                files3.append((nm, content))
+                        out.append((files3, ("trace3", names[j], wl3, trace)))
     return out
 
 
@@ -329,7 +350,7 @@ def project_stage(res, tier, seed, rp):
         if isinstance(fam, tuple) and fam[0] == "span" and st != "err":
             bad.append(("a Path property typed by a structured or undefined user type is not rejected (%s)" % st, pj, o))
             continue
-        if isinstance(fam, tuple) and fam[0] in ("trace", "trace2") and st != "err":
+        if isinstance(fam, tuple) and fam[0] in ("trace", "trace2", "trace3") and st != "err":
             bad.append(("a duplicate TYPE in an included file is not rejected (%s)" % st, pj, o))
             continue
         if st != "err" or "file" not in d:
@@ -343,6 +364,8 @@ def project_stage(res, tier, seed, rp):
         if fname not in files:
             if fname:
                 bad.append(("the diagnostic names the file %r which is not part of the project" % fname, pj, o))
+            elif isinstance(fam, tuple) and fam[0] in ("trace", "trace2", "trace3"):
+                bad.append(("the fault is in %s line %d, reached through the includes %r; the diagnostic names no file at all" % (fam[1], fam[2], fam[3]), pj, o))
             continue
         content = files[fname]
         idx, line = int(d.get("idx", 0)), int(d.get("line", 0))
@@ -355,12 +378,12 @@ def project_stage(res, tier, seed, rp):
         if line != want and not (idx == 0 and line == 0):
             bad.append(("line %d does not agree with index %d of %s (line %d)" % (line, idx, fname, want), pj, o))
             continue
-        if isinstance(fam, tuple) and fam[0] in ("trace", "trace2"):
+        if isinstance(fam, tuple) and fam[0] in ("trace", "trace2", "trace3"):
             _, wfile, wline, wtrace = fam
             got = C.unhx(d.get("trace", "-")).decode("latin1") if d.get("trace", "-") != "-" else ""
             if fname != wfile or line != wline or got != wtrace:
                 bad.append(("the fault is %s in %s line %d, reached through the includes %r; the diagnostic says %s line %d with the trace %r"
-                            % ("the second TYPE @dup" if fam[0] == "trace" else "the misplaced directive before the INCLUDE", wfile, wline, wtrace, fname, line, got), pj, o))
+                            % ({"trace": "the second TYPE @dup", "trace2": "the misplaced directive before the INCLUDE", "trace3": "the parenthesis left open at the end"}[fam[0]], wfile, wline, wtrace, fname, line, got), pj, o))
             continue
         if isinstance(fam, tuple) and fam[0] == "span":
             _, wfile, a0, a1 = fam
